@@ -4,6 +4,7 @@ Tie: EXHAUSTIVE for 32-bit inputs: the accepted set of every copy of every 32-bi
 2^32 inputs, with encodings, must equal the image of the architectural decoder computed by the Lean model; 64-bit: every representable value,
 its single-bit flips and rotations, and random values, implementation vs model. The inline runtime code the macro generates is C03's tie."""
 import json
+import os
 
 import common
 from common import SplitMix
@@ -46,12 +47,33 @@ def check(run):
     run.coverage["trusted_base"] += ["Model/A64Imm.lean decoders written from the ARM ARM pseudocode (DecodeBitMasks, MOVZ chunk, AdvSIMDExpandImm, VFPExpandImm)",
                                      "harness/plug (calls the plugin's encoding_helpers and dynasmrt::aarch64::encode_* in-process)",
                                      "f32::to_bits/from_bits (floats enter as bit patterns)"]
-    run.assumptions += ["the inline runtime code emitted by handle_special_immediates is covered by C03 (needs rustc to evaluate the generated expression)"]
     ok, log = common.build_harness("plug")
     if not ok:
         run.violation("broken-correspondence", {"kind": "harness-build"}, "harness/plug does not build against the working tree", {"log": log[-3000:]}, found_input=False)
         return
-    proofs_ok = common.standard_proof_step(run, MODULES, allow_bv_decide=True)
+    # the inline run-time copies the macro generates (compiler.rs handle_special_immediates): their generated theorems (translated from
+    # today's generated Rust: run-time expression = compile-time encoder, for every value; accepted operands encoded injectively) are part of this check
+    import encgen
+    inline, unstated, modules = None, [], list(MODULES)
+    try:
+        inline = encgen.gen_a64dyn()
+        special = [ob for ob in inline["obligations"] if "Special" in str(ob.get("lean_cmds"))]
+        with open(os.path.join(common.GEN, "C14Inline.lean"), "w") as fh:
+            fh.write("import DynasmVerif.Generated.A64Dyn\n/-! generated: the obligations of the special-immediate operands, under C14's name -/\nnamespace DynasmVerif.C14Inline\n")
+            for ob in special:
+                if "skip" in ob:
+                    unstated.append((ob.get("mnemonic") or str(ob.get("lean_cmds")), ob["skip"]))
+                    continue
+                for t in inline["theorems"]:
+                    if t.startswith(f"ob{ob['n']}_"):
+                        fh.write(f"theorem {t} : type_of% @DynasmVerif.A64Dyn.{t} := @DynasmVerif.A64Dyn.{t}\n")
+            fh.write("end DynasmVerif.C14Inline\n")
+        modules.append("DynasmVerif.Generated.C14Inline")
+        inline = dict(inline, obligations=special)
+    except Exception as e:       # noqa
+        run.violation("broken-correspondence", {"kind": "translator"}, f"the obligations of the inline special-immediate code could not be generated: {e}", found_input=False)
+        inline = None
+    proofs_ok = common.standard_proof_step(run, modules, allow_bv_decide=True)
     found_before = len(run.violations) + len(run.known_hit)
     if not proofs_ok and hasattr(run, "broken_build"):
         ok2, _ = common.lake_build(["driver"])
@@ -125,6 +147,15 @@ def check(run):
                                   {"stream": "plug", "input": [reqs_i[off + j]], "impl": [a], "model": [m]})
             off += len(ai)
         stats["accepted"][name] = len(vals)
+    # ---- the inline copies by execution: literal spelling (compile-time encoder) vs run-time spelling (generated code, through rustc)
+    if inline is not None:
+        import enc
+        stats["inline_runtime_copies"] = {k: v for k, v in enc.sweep(run, inline, "both", thorough, crate="C14I").items() if k in ("literal", "runtime", "pairs_compared", "runtime_accepted", "expression_twins")}
+        if unstated:
+            found = (len(run.violations) + len(run.known_hit)) > found_before
+            run.violation("broken-obligation", {"kind": "obligation-not-stated", "first": unstated[0][0]},
+                          "; ".join(f"`{m}`: {w[:120]}" for (m, w) in unstated[:4]) + ": the inline run-time encoder of this operand can no longer be translated, so its theorems are not stated",
+                          {"unstated": [list(u) for u in unstated]}, found_input=found)
     run.coverage["evaluations"] = stats["exhaustive_32bit_inputs"] + stats["queries64"]
     run.coverage["distinct_nontrivial"] = sum(stats["accepted"].values())
     run.coverage["rule"] = ("32-bit encoders (plugin + runtime copies): every one of the 2^32 inputs, accepted set with encodings compared with the decoder image from the Lean model; "
